@@ -7,10 +7,12 @@ it and 0 without it.  Writes meta.json with what was run and observed."""
 import os, sys, json, shutil, subprocess, tempfile
 HERE = os.path.dirname(os.path.dirname(os.path.abspath(__file__)))
 prop, wt, slug, needs = sys.argv[1:5]
+suffix = sys.argv[5] if len(sys.argv) > 5 else ''     # '1' / '2' when the agent delivered patch1.diff, patch2.diff ...
 dst = os.path.join(HERE, 'seeded', '%s-%s' % (prop, slug))
 os.makedirs(dst, exist_ok=True)
 for f in ('patch.diff', 'demo.py', 'notes.md'):
-    src = os.path.join(wt, 'out', f)
+    base, ext = f.split('.')
+    src = os.path.join(wt, 'out', '%s%s.%s' % (base, suffix, ext))
     if os.path.exists(src):
         shutil.copy(src, os.path.join(dst, f))
 scratch = tempfile.mkdtemp(prefix='clastic-seed-')
